@@ -51,7 +51,7 @@ def expect_connection_onClose : List String := [
   "c.triggerWrite(Exception(ErrConnClosed, \"self close\"))",
   "c.closeCallback(true,true)",
   "c.force(closing,user)",
-  "c.closeCallback(true,false)"]
+  "c.closeCallback(true,true)"]
 
 def expect_connection_closeCallback : List String := [
   "c.lock(processing)",
